@@ -104,6 +104,15 @@ def run(chk, facts):
         s = first[key]
         loc = f"{s['file']}:{s['line']}"
         r = reviewed.get(key)
+        if r is None and "/#" in org:
+            # the container's element type is a type parameter: the site is in a generic helper; it stands for the reviewed sites of the
+            # same function and kind whose container matches with the parameter as a wildcard (`HashSet<T>` for `HashSet<GenericClass>`, ..)
+            rx_ = re.compile("^" + re.sub(r"\\?\w+/\\?#\d+", r"[^<>,]+", re.escape(org.split(" .")[0])) + "$")
+            cands_ = [(k_, r_) for k_, r_ in reviewed.items() if k_[0] == fn and k_[2] == kind and rx_.match(k_[1].split(" .")[0]) and (k_ not in cnt)]
+            if cands_ and all(r_["disposition"] != "finding" for _, r_ in cands_) and n <= sum(r_["count"] for _, r_ in cands_):
+                chk.ob("R-C12-1", f"{fn}|{org}|{kind}", True, f"{fn}: `{kind}` over `{org}` (a generic helper) - stands for the reviewed sites over "
+                       f"{sorted(k_[1] for k_, _ in cands_)}: {cands_[0][1]['reason']}", loc)
+                continue
         if r is None:
             rc_ = reviewed_coarse.get(coarse(key))
             if rc_ is not None and rc_["disposition"] != "finding" and cnt_coarse[coarse(key)] <= rc_["count"]:
@@ -205,6 +214,17 @@ def run(chk, facts):
         all_fields = {n_ for n_, _ in st["fields"]} if st else set()
         need = eq_fields.get(key, all_fields)
         read = _self_fields(body)
+        # a comparison of the whole values (`self == other`, `self.eq(other)`) looks at everything Eq compares; a sibling method of the same
+        # impl called on self (`self.lt(other)`) contributes what it reads
+        for n in walk(body):
+            if n.get("k") == "binary" and n["op"] in ("==", "!=") and {src(strip(n["l"])), src(strip(n["r"]))} == {"self", "other"}:
+                read |= need
+            elif n.get("k") == "mcall" and src(strip(n["recv"])) == "self" and n["m"] in ("eq", "ne") and len(n["args"]) == 1 and src(strip(n["args"][0])) == "other":
+                read |= need
+            elif n.get("k") == "mcall" and src(strip(n["recv"])) == "self" and n["m"] not in ("cmp", "partial_cmp"):
+                for sib in im["items"]:
+                    if sib.get("k") == "fn" and sib["name"] == n["m"] and sib.get("body"):
+                        read |= _self_fields(sib["body"])
         missing = sorted(need - read)
         proj = [src(n, -30)[:60] for n in walk(body) if n.get("k") == "mcall" and n["m"] in ("map", "filter", "filter_map", "flat_map", "sorted_by_key", "sort_by_key", "take", "skip", "first", "last", "next")
                 and "self" in idents_in(n["recv"])]
